@@ -167,7 +167,7 @@ func genMuxPMTBoundary(r *rng, sc *muxScenario, k int) {
 // stream goes out on the PID's 13 low bits and nothing else of the header moves
 func genMuxReuseAndWidePID(r *rng, sc *muxScenario, demux bool) {
 	sc.Reuse = true
-	wide := r.pick(0x4123, 0x2123, 0x8123, 0xe123)
+	wide := r.pick(0x4123, 0x2123, 0x8123, 0xe123, 0x3000, 0x3000)
 	sc.Ops = append(sc.Ops, muxOp{Op: "add", PID: 0x100, ST: 27, DK: "none"}, muxOp{Op: "setpcr", PID: 0x100},
 		muxOp{Op: "add", PID: wide, ST: 15, DK: r.pickS("none", "si")}, muxOp{Op: "tables"})
 	for i, n := 0, r.rangeInt(6, 14); i < n; i++ {
